@@ -1,13 +1,22 @@
 """Collect evaluated seeded changes into /verif/seeded/<id>/ and print the DESIGN.md table.
-usage: collect_seeded.py /var/tmp/mutres"""
+usage: collect_seeded.py <results dir> [<later results dir> ...]   (later runs override per check: re-tests after a
+check was strengthened)"""
 import sys, os, re, json, shutil, glob
 res_dir = sys.argv[1]
+later = sys.argv[2:]
 rows = []
 for f in sorted(glob.glob(os.path.join(res_dir, "C*-m*.txt"))):
     mid = os.path.basename(f)[:-4]
     prop, m = mid.split("-")
     src = f"/tmp/mut_{prop}/_mut/{m}"
     txt = open(f).read()
+    retested = []
+    for ld in later:
+        lf = os.path.join(ld, os.path.basename(f))
+        if os.path.exists(lf):
+            extra = [l for l in open(lf).read().split("\n") if re.match(r"C\d\d rc=", l)]
+            txt += "\n" + "\n".join(extra)
+            retested += [l.split()[0] for l in extra]
     ok_without = "demo-without-patch rc=0" in txt
     ok_with = re.search(r"demo-with-patch rc=1", txt) is not None
     tests = re.search(r"(\d+) passed", txt)
@@ -34,6 +43,7 @@ for f in sorted(glob.glob(os.path.join(res_dir, "C*-m*.txt"))):
                                    "suite_with_patch": tests.group(0) if tests else None}
         meta["checks_run"] = "tools/try_mutation.sh (patch applied to /repo with git apply, all 17 quick checks, git checkout -- .)"
         meta["check_results"] = {k: v[0] for k, v in checks.items()}
+        meta["retested_after_strengthening"] = sorted(set(retested))
         meta["target_check_detail"] = checks.get(prop, ("", ""))[1]
         json.dump(meta, open(os.path.join(dst, "meta.json"), "w"), indent=1)
     rows.append((mid, prop, confirmed, checks))
